@@ -19,6 +19,7 @@ Outcome of analysing a body: a list of Path objects
     ret     : term (for 'return')
 """
 import itertools
+import re
 
 MASKS = {"u8": 8, "u16": 16, "u32": 32, "u64": 64, "u128": 128, "usize": 64,
          "i8": 8, "i16": 16, "i32": 32, "i64": 64, "i128": 128, "isize": 64,
@@ -101,6 +102,15 @@ def show(t, depth=0):
         return "%s%s" % (t[1], "" if t[2] in ("usize", "bool") else "_" + t[2])
     if k == "param":
         return t[2] or "arg%d" % t[1]
+    if k == "P":
+        return "arg%d" % t[1]
+    if k == "F":
+        return "%s.%s" % (show(t[1], d), t[2])
+    if k == "poly":
+        import nf
+        return "[" + nf.pshow(t[1]) + "]"
+    if k in ("BITS", "K"):
+        return k
     if k == "cg":
         return t[1]
     if k == "ac":
@@ -293,7 +303,7 @@ class Engine:
         # zero-sized values such as PhantomData
         return ("zst", c["text"])
 
-    def project(self, base, i, name):
+    def project(self, base, i, name, ty=None):
         if isinstance(base, tuple):
             if base[0] == "agg" and i < len(base[4]):
                 return base[4][i]
@@ -302,8 +312,8 @@ class Engine:
             if base[0] == "closure" and i < len(base[3]):
                 return base[3][i]
             if base[0] == "downcast" and base[1][0] == "agg":
-                return self.project(base[1], i, name)
-        return ("field", base, i, name)
+                return self.project(base[1], i, name, ty)
+        return ("field", base, i, name, ty)
 
     def adt_variant_discr(self, adt_path, vidx):
         a = self.adts.get(adt_path)
@@ -365,9 +375,9 @@ class Frame:
                     cur = ("deref", v)
             elif k == "field":
                 if cur[0] in ("local", "lfield", "ldowncast"):
-                    cur = ("lfield", cur, e["i"], e.get("name"))
+                    cur = ("lfield", cur, e["i"], e.get("name"), e.get("ty"))
                 else:
-                    cur = ("field", cur, e["i"], e.get("name"))
+                    cur = ("field", cur, e["i"], e.get("name"), e.get("ty"))
             elif k == "downcast":
                 if cur[0] in ("local", "lfield", "ldowncast"):
                     cur = ("ldowncast", cur, e["v"], e.get("name"))
@@ -385,7 +395,7 @@ class Frame:
         if k == "local":
             return self.env.get(lv[1], ("uninit", lv[1]))
         if k == "lfield":
-            return self.eng.project(self.read_lv(lv[1]), lv[2], lv[3])
+            return self.eng.project(self.read_lv(lv[1]), lv[2], lv[3], lv[4] if len(lv) > 4 else None)
         if k == "ldowncast":
             b = self.read_lv(lv[1])
             if isinstance(b, tuple) and b[0] == "agg":
@@ -401,7 +411,7 @@ class Frame:
         # value-denoting lvalue (memory behind a parameter): simplify projections
         if k == "field":
             b = self.read_lv(lv[1]) if lv[1] in self.heap or lv[1][0] in ("field", "deref", "downcast") else lv[1]
-            return self.eng.project(b, lv[2], lv[3])
+            return self.eng.project(b, lv[2], lv[3], lv[4] if len(lv) > 4 else None)
         if k == "deref":
             return lv
         if k == "downcast":
@@ -692,9 +702,10 @@ class Analysis:
                     else:
                         forks.append((t["otherwise"], (d, ("notin", tuple(vals)))))
                     # prune statically-dead otherwise (unreachable block)
-                    first = True
                     for b, g in reversed(forks):
                         if blocks[b]["term"]["k"] == "unreachable" and not blocks[b]["stmts"]:
+                            continue
+                        if self._contradicts(path, g):
                             continue
                         f2 = frame.clone()
                         p2 = path.clone()
@@ -720,6 +731,20 @@ class Analysis:
                 path.panic = ("terminator", k)
                 out.append(path)
                 break
+
+    @staticmethod
+    def _contradicts(path, g):
+        d, (op, v) = g[0], g[1]
+        for g0 in path.guards:
+            if g0[0] == d:
+                op0, v0 = g0[1]
+                if op0 == "==" and op == "==" and v0 != v:
+                    return True
+                if op0 == "==" and op == "notin" and v0 in v:
+                    return True
+                if op0 == "notin" and op == "==" and v in v0:
+                    return True
+        return False
 
     def _refine(self, frame, g):
         """Use a branch fact to refine the environment (variant knowledge)."""
@@ -906,9 +931,11 @@ def std_model(an, frame, ev, path):
                 return a[0][4][0]
     if d == "std::ptr::from_ref":
         return a[0]
+    if re.match(r"^(core|std)::num::<impl (usize|u8|u32|u64)>::(saturating_sub|saturating_add|wrapping_sub|wrapping_add)$", d) and is_int(a[1]) and a[1][1] == 0:
+        return a[0]
     if d in ("std::ops::RangeInclusive::<Idx>::start", "std::ops::RangeInclusive::<Idx>::end"):
         which = d.split("::")[-1]
-        return ("ref", False, ("field", _unref(frame, a[0]), 0 if which == "start" else 1, which))
+        return ("ref", False, ("field", _unref(frame, a[0]), 0 if which == "start" else 1, which, "usize"))
     if d == "std::clone::Clone::clone" and st and (st in INT_TYS or st in ("bool", "char")):
         return _unref(frame, a[0])
     if d == "std::ops::Deref::deref" and st and st.startswith("&"):
